@@ -395,6 +395,66 @@ def openssl_interop(binpath, res, seed, n):
         res.note([c["text"]], True, cls="openssl_signature_over_reference:" + ("accepted" if r else "rejected"))
 
 
+def refused_signing_history(binpath, res, seed):
+    """one process: a signing attempt that the key refuses (an RSA key loaded under the ECDSA scheme: accepted at load time,
+    refused when it is to sign), then ordinary signing and verification of other documents on the same thread.  What
+    is signed and verified afterwards is the reference encoding of the document at hand, nothing left over"""
+    rng = common.rng_for(seed, PROP, 901)
+    W = scen.World(binpath)
+    keys = dict(common.key_header())
+    keys["refuses"] = {"kind": "pk8", "path": str(common.KEYS / "rsa-2048-a.pk8.der"), "scheme": "ecdsa-sha2-nistp256"}
+    docs = [docgen.rand_link(rng, 0.5) for _ in range(8)]
+    for d in docs:
+        d.setdefault("environment", None)
+    seq = []
+    for i, d in enumerate(docs):
+        via = rng.choice(["new", "builder", "raw_builder"])
+        seq.append({"op": "sign", "signed": docs[(i + 1) % len(docs)], "signers": ["refuses"], "via": via, "meta": {"kind": "refused"}})
+        if i % 2 == 0:
+            seq.append({"op": "sign", "signed": d, "signers": ["ed0"], "via": rng.choice(["new", "builder"]), "meta": {"kind": "sign_after_refusal", "i": i}})
+        else:
+            seq.append({"op": "rawsig", "key": "ed0", "msg": {"hex": ref_bytes(d).hex()}, "meta": {"kind": "ref", "i": i}})
+    obs = common.run_batch(binpath, seq, keys=keys)
+    refused = sum(1 for c, o in zip(seq, obs) if c["meta"]["kind"] == "refused" and "ok" not in o and "panic" not in str(o))
+    if refused == 0:
+        res.inconclusive.append(f"the refusing key did not refuse: {str(obs[0])[:200]}")
+        return
+    res.classes["history:signing_attempt_refused_by_the_key"] += refused
+    # second process-free step: reference signatures for the documents signed after a refusal
+    want = common.run_batch(binpath, [{"op": "rawsig", "key": "ed0", "msg": {"hex": ref_bytes(c["signed"]).hex()}} for c in seq if c["meta"]["kind"] == "sign_after_refusal"])
+    j = 0
+    for c, o in zip(seq, obs):
+        if c["meta"]["kind"] != "sign_after_refusal":
+            continue
+        w = want[j]
+        j += 1
+        if "ok" not in o or "ok" not in w:
+            res.inconclusive.append(f"signing after a refused attempt failed: {str(o)[:200]}")
+            continue
+        res.note(["after-refusal", c["signed"]], True, cls="history:signed_after_a_refused_attempt")
+        if o["ok"]["wire"]["signatures"][0]["sig"] != w["ok"]["sig"]:
+            res.violate("signed-bytes-differ-from-reference:after-refused-signing-attempt",
+                        "after a signing attempt that the key refused, the next document was not signed over its reference encoding",
+                        c, {"library": o["ok"]["wire"]["signatures"][0]["sig"][:32], "reference": w["ok"]["sig"][:32]}, w["ok"]["sig"])
+    # verification after a refusal: reference-signed blocks are accepted
+    seq2 = []
+    for i, d in enumerate(docs[1::2]):
+        seq2.append({"op": "sign", "signed": docs[0], "signers": ["refuses"], "via": "new", "meta": {"kind": "refused"}})
+    pre = [o["ok"] for c, o in zip(seq, obs) if c["meta"]["kind"] == "ref" and "ok" in o]
+    seq3 = []
+    for d, sg in zip(docs[1::2], pre):
+        seq3.append({"op": "sign", "signed": docs[0], "signers": ["refuses"], "via": "builder", "meta": {"kind": "refused"}})
+        seq3.append({"op": "block", "text": json.dumps({"signatures": [sg], "signed": d}, ensure_ascii=False), "threshold": 1, "auth": [W.pub("ed0")],
+                     "meta": {"kind": "verify_after_refusal"}})
+    for c, o in zip(seq3, common.run_batch(binpath, seq3, keys=keys)):
+        if c["meta"]["kind"] != "verify_after_refusal":
+            continue
+        res.note(["verify-after-refusal", c["text"]], True, cls="history:verified_after_a_refused_attempt")
+        if o.get("parse") != "ok" or o.get("verify") != "ok":
+            res.violate("reference-signature-rejected:after-refused-signing-attempt",
+                        f"after a signing attempt that the key refused, a signature over the reference bytes is rejected: {o.get('verify')}", c, o, "ok")
+
+
 def main(ctx):
     res = common.Result()
     n = common.NPROC
@@ -403,6 +463,7 @@ def main(ctx):
     keyids(ctx.bin, res)
     keyid_variants(ctx.bin, res)
     openssl_interop(ctx.bin, res, ctx.seed, 24 if not ctx.thorough else 500)
+    refused_signing_history(ctx.bin, res, ctx.seed)
     res.extras["exhaustive_subspaces"] = [
         "all strings of length <= 2 (quick) / <= 3 (thorough) over {backslash, quote, n, LF, TAB, CR, U+0001, a, é, U+2028, 😀, DEL} in each field class",
         "every Unicode scalar value once inside captured output (thorough; sampled blocks in quick)"]
@@ -415,6 +476,6 @@ def main(ctx):
              "recomputed from the reference encoding; every case non-trivial; distinct by SHA-256 of reference bytes",
         assumptions=["olpc_canon() transliterates securesystemslib's encode_canonical", "OpenSSL CLI is a correct foreign signer/verifier",
                      "ed25519 determinism"],
-        required=["agrees", "chars:LF", "chars:TAB", "chars:backslash", "chars:quote", "chars:non-ascii", "keyid:rsa",
+        required=["history:signing_attempt_refused_by_the_key", "history:signed_after_a_refused_attempt", "agrees", "chars:LF", "chars:TAB", "chars:backslash", "chars:quote", "chars:non-ascii", "keyid:rsa",
                   "keyid:ed25519", "keyid:ecdsa", "keyid_variant:empty", "keyid_variant:absent", "field:unicode_block", "field:random"],
         min_evals=3000)
